@@ -286,4 +286,26 @@ theorem pdJoin_unfold (inputs seq : List (String × PInput)) (on : List String)
     subst this
     rfl
 
+/-- the per-input stage of `join` succeeded -/
+theorem pdJoin_stage {inputs : List (String × PInput)} {on : List String}
+    {defaults : List (String × Cell)} {ds : Table} (h : pdJoin inputs on defaults = some (.ok ds)) :
+    ∃ seq, inputs.mapM (fun kv => match kv.2 with
+      | .table d => (item d kv.1 on).map fun d' => (kv.1, PInput.table d')
+      | .scalar c => (Except.ok (kv.1, PInput.scalar c) : Res (String × PInput))) = .ok seq := by
+  simp only [pdJoin] at h
+  split at h
+  · cases h
+  · rename_i seq he
+    exact ⟨seq, he⟩
+
+/-- `d[cols]` succeeds when the columns are there -/
+theorem select_ok (t : Table) (cs : List String) (h : ∀ k ∈ cs, k ∈ t.cols) :
+    t.select cs = .ok (cs.map fun k => (k, (t.col? k).getD [])) := by
+  apply mapM_ok_of_forall
+  intro k hk
+  have := col?_isSome_of_mem (h k hk)
+  cases hc : t.col? k with
+  | none => simp [hc] at this
+  | some xs => simp
+
 end Pyg
